@@ -30,8 +30,16 @@ def sample_time(rng, SR, lo, hi):
 
 def generate(rng, tier):
     n = 140 if tier == "quick" else 4000
-    for _ci in range(n):
-        SR, segs = target_blueprint(rng, nseg=rng.randint(1, 6), nmax=40)
+    n_long = 3 if tier == "quick" else 25
+    for _ci in range(n + n_long):
+        if _ci >= n:
+            # long waveforms (> 2**16 samples): fast paths / caches keyed on size must not change where markers switch
+            while True:
+                SR, segs = target_blueprint(rng, nseg=rng.randint(3, 5), nmax=40000, SR=rng.choice([1e9, 2.4e9, 1e4]))
+                if sum(s[4] for s in segs) > 70000:
+                    break
+        else:
+            SR, segs = target_blueprint(rng, nseg=rng.randint(1, 6), nmax=40)
         N = sum(s[4] for s in segs)
         prog = [("BNew", 0)] + insertion_history(rng, 0, segs) + [("BSetSR", 0, SR)]
         names = None
